@@ -213,3 +213,205 @@ pub proof fn complete_ext2mul(f: EvaluationFrame, s: Seq<Felt>)
     lemma_mod_mul(2 * b1, a1);
     assert((2 * a1) * b1 == (2 * b1) * a1) by (nonlinear_arith);
 }
+
+// ---- u32 operations -----------------------------------------------------------------------------------
+/// the limb compositions of a row whose helper registers hold u32_helpers(lo, hi, check) (what
+/// Process::add_range_checks writes, unit ops_u32)
+pub proof fn lemma_limbs(f: EvaluationFrame, lo: int, hi: int, check: bool)
+    requires helpers_are(f, u32_helpers(lo, hi, check), 5), 0 <= lo < B32(), 0 <= hi < B32()
+    ensures
+        d_v_lo(f) == lo, d_v_hi(f) == hi,
+        d_v48(f) == 0x1_0000_0000 * (hi % 0x10000) + lo,
+        d_v64(f) == (0x1_0000_0000 * hi + lo) % P(),
+        f.h(4).val() == (if check { finv(fsub(0xFFFF_FFFF, hi)) } else { 0 }),
+{
+    let hs = u32_helpers(lo, hi, check);
+    assert(f.h(0) == hs[0] && f.h(1) == hs[1] && f.h(2) == hs[2] && f.h(3) == hs[3] && f.h(4) == hs[4]);
+    let t0 = lo % 0x10000; let t1 = lo / 0x10000; let t2 = hi % 0x10000; let t3 = hi / 0x10000;
+    assert(f.h(0).val() == t0 && f.h(1).val() == t1 && f.h(2).val() == t2 && f.h(3).val() == t3);
+    assert(1 * t0 == t0 && 1 * t2 == t2);
+    assert(0x1_0000 * t1 + t0 == lo && 0x1_0000 * t3 + t2 == hi);
+    lemma_small(0x1_0000 * t1); lemma_small(0x1_0000 * t3); lemma_small(t0); lemma_small(t2);
+    lemma_small(lo); lemma_small(hi);
+    lemma_small(0x1_0000_0000 * t2);
+    lemma_small(0x1_0000_0000 * t2 + lo);
+    lemma_mod_add(0x1_0000_0000_0000 * t3, 0x1_0000_0000 * t2 + lo);
+    assert(0x1_0000_0000_0000 * t3 + (0x1_0000_0000 * t2 + lo) == 0x1_0000_0000 * hi + lo);
+    felt_inv_ax(fsub(0xFFFF_FFFF, hi));
+}
+/// element validity: (1 - m * (2^32 - 1 - hi)) * lo = 0 when m = 1 / (2^32 - 1 - hi) (0 for hi = 2^32 - 1),
+/// provided hi = 2^32 - 1 forces lo = 0 - which holds for every canonical field element 2^32 hi + lo < P
+pub proof fn lemma_validity(m: int, lo: int, hi: int)
+    requires 0 <= lo < B32(), 0 <= hi < B32(), m == finv(fsub(0xFFFF_FFFF, hi)), 0x1_0000_0000 * hi + lo < P()
+    ensures fsub(fmul(fsub(1, fmul(m, fsub(fsub(0x1_0000_0000, 1), hi))), lo), 0) == 0
+{
+    let d = fsub(0xFFFF_FFFF, hi);
+    lemma_small(0xFFFF_FFFF - hi);
+    assert(fsub(0x1_0000_0000, 1) == 0xFFFF_FFFF) by { lemma_small(0xFFFF_FFFF); }
+    felt_inv_ax(d);
+    if hi == 0xFFFF_FFFF {
+        assert(lo == 0);
+        assert(fsub(1, fmul(m, d)) * 0 == 0);
+    } else {
+        assert(d % P() != 0) by { lemma_small(d); }
+        assert(fmul(d, m) == 1);
+        assert(m * d == d * m) by (nonlinear_arith);
+        assert(0 * lo == 0);
+    }
+}
+pub proof fn complete_u32split(f: EvaluationFrame, s: Seq<Felt>)
+    requires
+        honest(f, s, sem_u32split(s)),
+        helpers_are(f, u32_helpers(s[0].val() % B32(), s[0].val() / B32(), true), 5),
+    ensures
+        fsub(f.s(0).val(), d_v64(f)) == 0,
+        fsub(f.sn(1).val(), d_v_lo(f)) == 0, fsub(f.sn(0).val(), d_v_hi(f)) == 0,
+        fsub(fmul(fsub(1, fmul(f.h(4).val(), fsub(fsub(0x1_0000_0000, 1), d_v_hi(f)))), d_v_lo(f)), 0) == 0,
+{
+    let sn = sem_u32split(s);
+    lemma_honest_at(f, s, sn);
+    let v = s[0].val(); let lo = v % B32(); let hi = v / B32();
+    assert(sn[0] == fe(hi) && sn[1] == fe(lo));
+    assert(0x1_0000_0000 * hi + lo == v);
+    lemma_limbs(f, lo, hi, true);
+    lemma_small(v);
+    lemma_validity(f.h(4).val(), lo, hi);
+}
+pub proof fn complete_u32add(f: EvaluationFrame, s: Seq<Felt>)
+    requires
+        honest(f, s, sem_u32add(s)), pre_u32_2(s),
+        helpers_are(f, u32_helpers(fadd(s[1].val(), s[0].val()) % B32(), fadd(s[1].val(), s[0].val()) / B32(), false), 5),
+    ensures
+        fsub(fadd(f.s(0).val(), f.s(1).val()), d_v48(f)) == 0,
+        fsub(f.sn(1).val(), d_v_lo(f)) == 0, fsub(f.sn(0).val(), d_v_hi(f)) == 0,
+{
+    let sn = sem_u32add(s);
+    lemma_honest_at(f, s, sn);
+    let v = s[1].val() + s[0].val();
+    lemma_small(v);
+    assert(sn[0] == fe(v / B32()) && sn[1] == fe(v % B32()));
+    lemma_limbs(f, v % B32(), v / B32(), false);
+    assert(s[0].val() + s[1].val() == v);
+}
+pub proof fn complete_u32add3(f: EvaluationFrame, s: Seq<Felt>)
+    requires
+        honest(f, s, sem_u32add3(s)), pre_u32_3(s),
+        helpers_are(f, u32_helpers((s[2].val() + s[1].val() + s[0].val()) % B32(), (s[2].val() + s[1].val() + s[0].val()) / B32(), false), 5),
+    ensures
+        fsub(fadd(fadd(f.s(0).val(), f.s(1).val()), f.s(2).val()), d_v48(f)) == 0,
+        fsub(f.sn(1).val(), d_v_lo(f)) == 0, fsub(f.sn(0).val(), d_v_hi(f)) == 0,
+{
+    let sn = sem_u32add3(s);
+    lemma_honest_at(f, s, sn);
+    let v = s[2].val() + s[1].val() + s[0].val();
+    assert(sn[0] == fe(v / B32()) && sn[1] == fe(v % B32()));
+    lemma_limbs(f, v % B32(), v / B32(), false);
+    lemma_small(s[0].val() + s[1].val());
+    lemma_small(v);
+}
+pub proof fn complete_u32sub(f: EvaluationFrame, s: Seq<Felt>)
+    requires
+        honest(f, s, sem_u32sub(s)), pre_u32_2(s),
+        helpers_are(f, u32_helpers((s[1].val() - s[0].val()) % B32(), 0, false), 5),
+    ensures
+        fsub(f.s(1).val(), fsub(fadd(f.s(0).val(), f.sn(1).val()), fmul(0x1_0000_0000, f.sn(0).val()))) == 0,
+        fsub(fmul(f.sn(0).val(), f.sn(0).val()), f.sn(0).val()) == 0,
+        fsub(f.sn(1).val(), d_v_lo(f)) == 0,
+{
+    let sn = sem_u32sub(s);
+    lemma_honest_at(f, s, sn);
+    let a = s[1].val(); let b = s[0].val();
+    let c = (a - b) % B32();
+    assert(sn[0] == b2f(a < b) && sn[1] == fe(c));
+    lemma_limbs(f, c, 0, false);
+    if a < b {
+        assert(c == a - b + B32());
+        assert(0x1_0000_0000 * 1 == 0x1_0000_0000);
+        lemma_small(0x1_0000_0000);
+        lemma_small(b + c);
+        lemma_small(b + c - 0x1_0000_0000);
+        assert(1 * 1 == 1);
+    } else {
+        assert(c == a - b);
+        assert(0x1_0000_0000 * 0 == 0);
+        lemma_small(b + c);
+        assert(0 * 0 == 0);
+    }
+}
+pub proof fn lemma_u32_prod(a: int, b: int, c: int)
+    requires 0 <= a < B32(), 0 <= b < B32(), 0 <= c < B32()
+    ensures 0 <= a * b <= 0xFFFF_FFFE_0000_0001, a * b + c < P(), a * b == b * a
+{
+    assert(0 <= a * b <= 0xFFFF_FFFF * 0xFFFF_FFFF) by (nonlinear_arith) requires 0 <= a <= 0xFFFF_FFFF, 0 <= b <= 0xFFFF_FFFF;
+    assert(a * b == b * a) by (nonlinear_arith);
+}
+pub proof fn complete_u32mul(f: EvaluationFrame, s: Seq<Felt>)
+    requires
+        honest(f, s, sem_u32mul(s)), pre_u32_2(s),
+        helpers_are(f, u32_helpers((s[1].val() * s[0].val()) % B32(), (s[1].val() * s[0].val()) / B32(), true), 5),
+    ensures
+        fsub(fmul(f.s(0).val(), f.s(1).val()), d_v64(f)) == 0,
+        fsub(f.sn(1).val(), d_v_lo(f)) == 0, fsub(f.sn(0).val(), d_v_hi(f)) == 0,
+        fsub(fmul(fsub(1, fmul(f.h(4).val(), fsub(fsub(0x1_0000_0000, 1), d_v_hi(f)))), d_v_lo(f)), 0) == 0,
+{
+    let sn = sem_u32mul(s);
+    lemma_honest_at(f, s, sn);
+    lemma_u32_prod(s[1].val(), s[0].val(), 0);
+    let v = s[1].val() * s[0].val();
+    assert(sn[0] == fe(v / B32()) && sn[1] == fe(v % B32()));
+    assert(0x1_0000_0000 * (v / B32()) + v % B32() == v);
+    lemma_limbs(f, v % B32(), v / B32(), true);
+    lemma_validity(f.h(4).val(), v % B32(), v / B32());
+}
+pub proof fn complete_u32madd(f: EvaluationFrame, s: Seq<Felt>)
+    requires
+        honest(f, s, sem_u32madd(s)), pre_u32_3(s),
+        helpers_are(f, u32_helpers((s[1].val() * s[0].val() + s[2].val()) % B32(), (s[1].val() * s[0].val() + s[2].val()) / B32(), true), 5),
+    ensures
+        fsub(fadd(fmul(f.s(0).val(), f.s(1).val()), f.s(2).val()), d_v64(f)) == 0,
+        fsub(f.sn(1).val(), d_v_lo(f)) == 0, fsub(f.sn(0).val(), d_v_hi(f)) == 0,
+        fsub(fmul(fsub(1, fmul(f.h(4).val(), fsub(fsub(0x1_0000_0000, 1), d_v_hi(f)))), d_v_lo(f)), 0) == 0,
+{
+    let sn = sem_u32madd(s);
+    lemma_honest_at(f, s, sn);
+    lemma_u32_prod(s[1].val(), s[0].val(), s[2].val());
+    let v = s[1].val() * s[0].val() + s[2].val();
+    assert(sn[0] == fe(v / B32()) && sn[1] == fe(v % B32()));
+    assert(0x1_0000_0000 * (v / B32()) + v % B32() == v);
+    lemma_limbs(f, v % B32(), v / B32(), true);
+    lemma_validity(f.h(4).val(), v % B32(), v / B32());
+    lemma_small(s[1].val() * s[0].val());
+    lemma_mod_add(s[0].val() * s[1].val(), s[2].val());
+}
+pub proof fn complete_u32div(f: EvaluationFrame, s: Seq<Felt>)
+    requires
+        honest(f, s, sem_u32div(s)), pre_u32_2(s), !fail_u32div(s),
+        helpers_are(f, u32_helpers(s[1].val() - s[1].val() / s[0].val(), s[0].val() - s[1].val() % s[0].val() - 1, false), 5),
+    ensures
+        fsub(fadd(fmul(f.s(0).val(), f.sn(1).val()), f.sn(0).val()), f.s(1).val()) == 0,
+        fsub(fsub(f.s(1).val(), f.sn(1).val()), d_v_lo(f)) == 0,
+        fsub(fsub(f.s(0).val(), f.sn(0).val()), fadd(d_v_hi(f), 1)) == 0,
+{
+    let sn = sem_u32div(s);
+    lemma_honest_at(f, s, sn);
+    let a = s[1].val(); let b = s[0].val();
+    let q = a / b; let r = a % b;
+    assert(sn[0] == fe(r) && sn[1] == fe(q));
+    assert(0 <= r < b && 0 <= q <= a && b * q + r == a) by (nonlinear_arith) requires b > 0, a >= 0, q == a / b, r == a % b;
+    lemma_limbs(f, a - q, b - r - 1, false);
+    lemma_small(b * q);
+    lemma_small(a);
+    lemma_small(a - q);
+    lemma_small(b - r);
+}
+/// U32ASSERT2: the helper limbs aggregate to the two asserted elements (F41)
+pub proof fn complete_u32assert2(f: EvaluationFrame, s: Seq<Felt>)
+    requires
+        honest(f, s, s), !fail_u32assert2(s),
+        helpers_are(f, u32_helpers(s[0].val(), s[1].val(), false), 5),
+    ensures
+        fsub(f.sn(0).val(), d_v_lo(f)) == 0, fsub(f.sn(1).val(), d_v_hi(f)) == 0,
+{
+    lemma_honest_at(f, s, s);
+    lemma_limbs(f, s[0].val(), s[1].val(), false);
+}
